@@ -239,8 +239,14 @@ func runContentOne(kind string, preload bool, limit, passes int, cfg []kv, items
 	for _, p := range cfg {
 		hdrs = append(hdrs, "["+p.k+": "+p.v+"]")
 	}
-	p, err := phttp.NewProvider(fs, config.Config{Decoder: dec, File: name, Limit: uint(limit), Passes: uint(passes),
-		Preload: preload, ChosenCases: chosen, Headers: hdrs, Middlewares: buildMiddlewares(mws)})
+	conf := config.Config{Decoder: dec, File: name, Limit: uint(limit), Passes: uint(passes),
+		Preload: preload, ChosenCases: chosen, Headers: hdrs, Middlewares: buildMiddlewares(mws)}
+	if hasOpt(mws, 'U') && kind == "uri" {
+		// the `uris:` option: the lines of the uri file given inline instead of `file:`
+		conf.File = ""
+		conf.Uris = strings.Split(strings.TrimSuffix(content, "\n"), "\n")
+	}
+	p, err := phttp.NewProvider(fs, conf)
 	if err != nil {
 		return "0 - closed construct"
 	}
